@@ -4,6 +4,7 @@
 package regex
 
 import (
+	"math"
 	"strings"
 
 	"slices"
@@ -144,6 +145,10 @@ func (co *compiler) compile2() Pattern {
 			co.prog = slices.Insert(co.prog, 0, byte(opPrefix),
 				byte(len(literal)))
 			co.prog = slices.Insert(co.prog, 2, literal...)
+		}
+		if len(co.prog) > math.MaxInt16 {
+			// jump offsets and program counters are int16
+			panic("regex: pattern too large")
 		}
 	}
 	return Pattern(hacks.BStoS(co.prog))
